@@ -230,16 +230,6 @@ def exclusions (d : Doc2 Json) : List String :=
         | _ => false)
    then ["SharedFormParamDefClash"] else []) ++
   (if (opParams d ++ sharedVals d).any (fun p => p.loc == "body" && p.schema.isNone) then ["BodyWithoutSchema"] else []) ++
-  (if d.paths.any (fun p => p.ops.any (fun o =>
-        -- since c26cd6a only a request body without x-originalParamName needs a free name: what formDataBody
-        -- builds from form parameters (inline or shared), or a body parameter without a name
-        o.params.any (fun q => match q with
-          | .val v => v.loc == "formData" || (v.loc == "body" && v.name == "")
-          | .ref _ n => match alookup n d.params with | some (.val v) => v.loc == "formData" | _ => false) &&
-        ["body", "requestBody"].all (fun nm => o.params.any (fun q => match q with
-          | .val v => v.loc != "body" && v.loc != "formData" && v.name == nm
-          | .ref _ n => match alookup n d.params with | some (.val v) => v.loc != "body" && v.loc != "formData" && v.name == nm | _ => false))))
-   then ["BodyNameClash"] else []) ++
   (if d.defs.any (fun (k, _) => !identOK k) || d.params.any (fun (k, _) => !identOK k) ||
       d.responses.any (fun (k, _) => !identOK k) || d.secs.any (fun (k, _) => !identOK k)
    then ["BadComponentName"] else []) ++
@@ -295,7 +285,8 @@ def branches (d : Doc2 Json) (excl : List String) : List String :=
     (if docBody d && !docSimple d then ["frag.docBody.only"] else []) ++
     (if docBodyBack d && !docSimpleBack d then ["frag.docBodyBack.only"] else []) ++
     (if docInputsBack d then ["frag.docInputsBack"] else []) ++
-    (if docInputsBack d && !docBodyBack d then ["frag.docInputsBack.only"] else [])
+    (if docInputsBack d && !docBodyBack d then ["frag.docInputsBack.only"] else []) ++
+    (if docInputsBack d && docNamed d then ["frag.fromV3Full"] else [])
   raw.eraseDups
 
 /-- the kinds of value the extension `x-nullable` takes anywhere in the document (only the boolean `true` is nullability) -/
